@@ -220,6 +220,7 @@ pub fn gen_len(r: &mut Rng, page: u32, max: u32) -> u32 {
         6 => (page as i64 * r.range(3, 12) + r.range(-3, 3)) as u32,
         7 => r.range(1, 9) as u32 * 1000,
         8 => *r.pick(&[255u32, 256, 257, 65535, 65536, 65537, 4095, 4096, 4097, 262_143, 262_144, 262_145, 1_048_575, 1_048_576, 1_048_577]),
+        9 if max > (2 << 20) => *r.pick(&[2u32 << 20, (2 << 20) + 1, (2 << 20) - 1, 3 << 20, 4 << 20]),
         _ => r.range(1, 64) as u32,
     };
     v.clamp(1, max.max(1))
